@@ -26,9 +26,11 @@ BASES = "ACGT"
 
 FLAG_NAMES = ["sequence", "features_inside_extract", "numbering", "motif_and_core_locations_inside",
               "parent_unchanged", "annotations"]
-# class of a failed flag whose guard is false (index = flag)
-CLASS_OF_FLAG = {0: "whole_ring_region", 1: "wrapped_region_partial_feature", 3: "wrapped_region_motif_offset",
-                 4: "wrapped_region_parent_qualifiers"}
+# class of a failed flag whose guard is false (index = flag); the guards of features_inside_extract,
+# motif_and_core_locations_inside and parent_unchanged are constantly true since the repair of
+# wrapped_region_partial_feature / wrapped_region_motif_offset / wrapped_region_parent_qualifiers, and the numbering
+# guard no longer excludes regions whose first sub-region is not number 1 (subregion_refs_not_renumbered repaired)
+CLASS_OF_FLAG = {0: "whole_ring_region", 2: "wrapped_region_numbering"}
 
 
 # ------------------------------------------------------------------ encoding
@@ -664,37 +666,33 @@ def _g(s, e, strand=1):
     return [(s, e, strand)]
 
 
-# witnesses of the recorded findings (n, circular, genes, protoclusters (core, extent, product), sub-regions, prepeptides)
+# regression corpus, run first in the real stream (n, circular, genes, protoclusters (core, extent, product), sub-regions,
+# prepeptides): the witnesses of the repaired findings (nothing is suppressed for them: a failure is a VIOLATION) and of
+# the findings that are still recorded
 CORPUS = [
-    # F18 (fixed): three regions with candidate clusters on a linear record
+    # F18 region_type_compare (fixed): three regions with candidate clusters on a linear record
     (1000, False, [_g(12, 42), _g(216, 246), _g(600, 630)],
      [((20, 30), (10, 50), "a"), ((220, 230), (200, 250), "b"), ((600, 640), (580, 700), "c")], [], {}),
-    # subregion_refs_not_renumbered
+    # F46 subregion_refs_not_renumbered (fixed): regions 2 and 3 hold sub-regions 2 and 3, 4
     (1000, False, [_g(110, 140), _g(420, 450), _g(700, 760)], [], [(100, 200), (400, 500), (690, 800), (700, 790)], {}),
-    # wrapped_region_parent_qualifiers (+ a second region)
+    # F49 wrapped_region_parent_qualifiers (fixed) (+ a second region; the origin-crossing gene is inside the region)
     (1000, True, [_g(960, 990), _g(60, 90), _g(420, 450), [(995, 1000, 1), (0, 10, 1)]],
      [((950, 20), (900, 120), "a"), ((420, 460), (400, 500), "d")], [], {}),
-    # wrapped_region_motif_offset
+    # F47 wrapped_region_motif_offset (fixed): prepeptide after the origin in an origin-crossing region
     (1000, True, [_g(960, 990), _g(60, 90), _g(420, 450)],
      [((950, 20), (900, 120), "a"), ((420, 460), (400, 500), "d")], [], {1: (1, 1)}),
-    # wrapped_region_partial_feature
+    # F48 wrapped_region_partial_feature (fixed): origin-crossing gene only partly inside the origin-crossing region
     (1000, True, [_g(960, 990), _g(60, 90), _g(420, 450), [(800, 1000, 1), (0, 10, 1)]],
      [((950, 20), (900, 120), "a"), ((420, 460), (400, 500), "d")], [], {}),
-    # multi_exon_spans_extract
+    # F50 multi_exon_spans_extract (known)
     (600, False, [_g(24, 42), _g(254, 332), [(373, 406, -1), (337, 364, -1)], _g(406, 427)], [((337, 406), (337, 406), "a")], [], {}),
-    # whole_ring_region
+    # F51 whole_ring_region (known)
     (600, True, [_g(6, 57), _g(106, 136), _g(196, 256), _g(399, 462)], [((196, 462), (196, 196), "a")], [], {}),
-    # wrapped_region_numbering (DESIGN finding 19)
+    # F19 wrapped_region_numbering (known; DESIGN finding 19)
     (1000, True, [_g(960, 990), _g(60, 90), _g(860, 890), _g(420, 450)],
      [((950, 20), (900, 50), "a"), ((60, 100), (30, 120), "b"), ((860, 900), (850, 920), "c"),
       ((420, 460), (400, 500), "d")], [], {}),
 ]
-
-WITNESSES = {
-    "subregion_refs_not_renumbered": "linear record, sub-regions [100:200] and [400:500]: the file of region 2 has "
-                                     "subregion_number=1 but the region feature keeps subregion_numbers=2",
-}
-
 
 def known_classes():
     return {f["class"]: f for f in common.load_known_findings("C12") if f.get("status") == "known"}
@@ -726,10 +724,6 @@ def decide(chk, idx, flat, out, verdict, consistent, reload_msg, known, describe
     for i in failed:
         if guards[i]:
             classes.append((i, None))
-        elif i == 2:
-            # numbering: which of the two recorded mechanisms
-            subs_first = describe["subs"] and min(describe["subs"]) > 1
-            classes.append((i, "subregion_refs_not_renumbered" if subs_first else "wrapped_region_numbering"))
         else:
             classes.append((i, CLASS_OF_FLAG.get(i)))
     for i, cls in classes:
@@ -747,18 +741,7 @@ def decide(chk, idx, flat, out, verdict, consistent, reload_msg, known, describe
         bad_guards = [i for i in range(6) if not guards[i]]
         cls = None
         if bad_guards:
-            i = bad_guards[0]
-            if i == 2:
-                subs_first = describe["subs"] and min(describe["subs"]) > 1
-                cls = "subregion_refs_not_renumbered" if subs_first else "wrapped_region_numbering"
-            else:
-                cls = CLASS_OF_FLAG.get(i)
-            if cls == "wrapped_region_parent_qualifiers" and len(bad_guards) > 1:
-                j = bad_guards[1] if bad_guards[0] == 4 else bad_guards[0]
-                cls = CLASS_OF_FLAG.get(j, cls)
-        # the parent-qualifier class alone never breaks a reload
-        if cls == "wrapped_region_parent_qualifiers":
-            cls = None
+            cls = CLASS_OF_FLAG.get(bad_guards[0])
         if cls is None and describe.get("spanning_multi_exon") and "origin spanning exon while in a linear record" in reload_msg:
             cls = "multi_exon_spans_extract"
         chk.count("reload_fail" + ("" if cls is None else f"[{cls}]"))
